@@ -629,6 +629,7 @@ fn cmd_cli(bin: &str, threads: usize, as_limit: Option<u64>) {
             }
             let mut args: Vec<Vec<u8>> = Vec::new();
             let mut input: Vec<u8> = Vec::new();
+            let mut stdin_file_offset: Option<usize> = None;
             for tok in lines[i].split_whitespace() {
                 if let Some(v) = tok.strip_prefix("a=") {
                     args = v.split(',').map(unhex).collect();
@@ -637,6 +638,9 @@ fn cmd_cli(bin: &str, threads: usize, as_limit: Option<u64>) {
                     }
                 } else if let Some(v) = tok.strip_prefix("in=") {
                     input = unhex(v);
+                } else if let Some(v) = tok.strip_prefix("sf=") {
+                    // stdin is a regular file; the value is the offset the descriptor is positioned at (junk before it)
+                    stdin_file_offset = v.parse::<usize>().ok();
                 }
             }
             use std::os::unix::ffi::OsStringExt;
@@ -655,17 +659,46 @@ fn cmd_cli(bin: &str, threads: usize, as_limit: Option<u64>) {
                     });
                 }
             }
+            let mut tmp_path: Option<std::path::PathBuf> = None;
+            let stdin_cfg = match stdin_file_offset {
+                None => Stdio::piped(),
+                Some(off) => {
+                    use std::io::{Seek, SeekFrom};
+                    let dir = std::env::var("VERIF_TMP").map(std::path::PathBuf::from).unwrap_or_else(|_| std::env::temp_dir());
+                    let _ = std::fs::create_dir_all(&dir);
+                    let path = dir.join(format!("stdin-{}-{}", std::process::id(), i));
+                    let made = (|| -> io::Result<std::fs::File> {
+                        let mut f = std::fs::OpenOptions::new().read(true).write(true).create(true).truncate(true).open(&path)?;
+                        f.write_all(&vec![b'#'; off])?;
+                        f.write_all(&input)?;
+                        f.seek(SeekFrom::Start(off as u64))?;
+                        Ok(f)
+                    })();
+                    tmp_path = Some(path);
+                    match made {
+                        Ok(f) => {
+                            input.clear();
+                            Stdio::from(f)
+                        }
+                        Err(_) => Stdio::piped(),
+                    }
+                }
+            };
             cmd.env("RUST_BACKTRACE", "0")
-                .stdin(Stdio::piped())
+                .stdin(stdin_cfg)
                 .stdout(Stdio::piped())
                 .stderr(Stdio::null());
             let r = match cmd.spawn() {
                 Err(_) => "spawnerr".to_string(),
                 Ok(mut child) => {
-                    {
-                        let mut si = child.stdin.take().unwrap();
-                        let _ = si.write_all(&input);
-                    }
+                    // stdin is fed from its own thread: a child that blocks on a full stdout pipe while we still write its stdin must not
+                    // deadlock the spawner (the reader below drains stdout concurrently)
+                    let writer = child.stdin.take().map(|mut si| {
+                        let data = std::mem::take(&mut input);
+                        std::thread::spawn(move || {
+                            let _ = si.write_all(&data);
+                        })
+                    });
                     // wait with a timeout
                     let t0 = std::time::Instant::now();
                     let mut out = Vec::new();
@@ -697,6 +730,9 @@ fn cmd_cli(bin: &str, threads: usize, as_limit: Option<u64>) {
                             }
                         }
                     }
+                    if let Some(w) = writer {
+                        let _ = w.join();
+                    }
                     if let Ok(v) = reader.join() {
                         out = v;
                     }
@@ -712,6 +748,9 @@ fn cmd_cli(bin: &str, threads: usize, as_limit: Option<u64>) {
                     format!("{} {}", st, hex(&out))
                 }
             };
+            if let Some(p) = tmp_path {
+                let _ = std::fs::remove_file(p);
+            }
             results.lock().unwrap()[i] = r;
         }));
     }
